@@ -13,22 +13,25 @@ Record aw := AW {
   aw_conns : gmap Z Z;
   aw_aof : aof;
   aw_pre : pre_file;
+  aw_gen : Z;            (* number of the last rewrite: in preamble.bin and in both stores *)
   aw_pol : policy;
   aw_now : Z;
   aw_before : nat;       (* size of the log before the last command *)
   aw_images : bool;
 }.
 Global Instance eta_aw : Settable _ :=
-  settable! AW <aw_live; aw_conns; aw_aof; aw_pre; aw_pol; aw_now; aw_before; aw_images>.
+  settable! AW <aw_live; aw_conns; aw_aof; aw_pre; aw_gen; aw_pol; aw_now; aw_before; aw_images>.
 
 Definition aw_init : aw :=
-  {| aw_live := None; aw_conns := ∅; aw_aof := aof_fresh; aw_pre := PreEmpty; aw_pol := Always;
+  {| aw_live := None; aw_conns := ∅; aw_aof := aof_fresh; aw_pre := PreEmpty; aw_gen := 0; aw_pol := Always;
      aw_now := default_now; aw_before := 0; aw_images := true |}.
 
 Definition hexb (b : bytes) : string := match b with [] => "-" | _ => hex_of_string (of_chars b) end.
 Definition log_bytes (w : aw) : bytes := f_all (a_log (aw_aof w)).
+Definition img_line_g (w : aw) (label : string) (pre : pre_file) (g : Z) (log : bytes) : string :=
+  "I " +:+ label +:+ " " +:+ show_state (restore_pg (aw_now w) pre g log).
 Definition img_line (w : aw) (label : string) (pre : pre_file) (log : bytes) : string :=
-  "I " +:+ label +:+ " " +:+ show_state (restore (aw_now w) pre log).
+  img_line_g w label pre (aw_gen w) log.
 Definition files_lines (w : aw) : list string :=
   ["L " +:+ hexb (log_bytes w);
    "Y " +:+ match aw_pol w with
@@ -65,7 +68,8 @@ Fixpoint dispatch_list (db : Z) (vs : list rv) : list string :=
       match cmd_of_value v with
       | [] => dispatch_list db r
       | c0 :: args =>
-          if eq_fold c0 "select" then
+          if eq_fold c0 "generation" then dispatch_list db r
+          else if eq_fold c0 "select" then
             match args with
             | [] => []
             | a :: _ => match parse_int a with Some d => dispatch_list d r | None => [] end
@@ -98,29 +102,52 @@ Definition cmd_lines (w : aw) (s : state) (c : Z) (argv : list string) : aw * li
   let w' := w <| aw_live := Some s' |> <| aw_aof := a' |> <| aw_before := length before |> in
   (w', ("R " +:+ show_reply r) :: imgs ++ files_lines w').
 
+(** REWRITEAOF as repaired: the images at the failpoints, in the order the code reaches them, then the
+    torn writes of the log's header at every byte ("IP <offset>"), and "IP 0": a half-written temporary
+    file next to the old preamble and the old log. *)
 Definition rewrite_lines (w : aw) (s : state) : aw * list string :=
   let a := aw_aof w in
   let pre := aw_pre w in
+  let g := aw_gen w in
+  let g' := g + 1 in
   let before := f_all (a_log a) in
-  let steps := rewrite_steps s pre a in
-  let '(pre', a') := rewrite_final s a in
-  let img l p f := img_line w l p (f_all f) in
-  let find l := match List.find (fun x => String.eqb (fst (fst x)) l) steps with
-                | Some (_, p, f) => img l p f
-                | None => "I " +:+ l +:+ " ?"
-                end in
-  let last := img_line w "rewrite.after_truncate" pre' (f_all (a_log a')) in
+  let pre' := PreFull (snapshot_of s) in
+  let genb := gen_marker g' in
+  let hdr := genb ++ trunc_header (a_cur a) in
+  let a' := Aof (apply_ops empty_file (hdr_ops g' (a_cur a))) (a_cur a) in
+  let old l := img_line_g w l pre g before in
+  let new l log := img_line_g w l pre' g' log in
   let imgs :=
     if aw_images w then
-      [img_line w "rewrite.begin" pre before; find "pre.create.after_state"; find "pre.create.after_truncate";
-       find "pre.create.after_write"; find "pre.create.after_sync";
-       img_line w "rewrite.after_preamble" pre' before;
-       find "log.trunc.after_truncate"; find "log.trunc.after_header"; find "log.trunc.after_sync";
-       last; img_line w "cmd.after_handler" pre' (f_all (a_log a')); img_line w "cmd.after_log" pre' (f_all (a_log a'));
-       "IP * " +:+ show_state (restore (aw_now w) PreTorn before)]
+      [old "rewrite.begin"; old "pre.create.after_state"; old "pre.create.after_create";
+       old "pre.create.after_write"; old "pre.create.after_sync";
+       new "pre.create.after_rename" before; new "rewrite.after_preamble" before;
+       new "log.trunc.after_truncate" []; new "log.trunc.after_generation" genb;
+       new "log.trunc.after_header" hdr; new "log.trunc.after_sync" hdr; new "rewrite.after_truncate" hdr;
+       new "cmd.after_handler" hdr; new "cmd.after_log" hdr;
+       "IP 0 " +:+ show_state (restore_pg (aw_now w) pre g before)] ++
+      map (fun off => "IP " +:+ show_Z (Z.of_nat off) +:+ " " +:+
+                      show_state (restore_pg (aw_now w) pre' g' (firstn off hdr)))
+          (seq 1 (length hdr - 1))
     else [] in
-  let w' := w <| aw_aof := a' |> <| aw_pre := pre' |> <| aw_before := length before |> in
+  let w' := w <| aw_aof := a' |> <| aw_pre := pre' |> <| aw_gen := g' |> <| aw_before := length before |> in
   (w', ("R " +:+ show_reply ROk) :: imgs ++ files_lines w').
+
+(** REWRITEAOF cut short at a failpoint (the process is about to be abandoned): the directory as it is
+    at that instant.  The stores of the dying process are of no interest: the next line is a kill. *)
+Definition rewrite_cut (w : aw) (s : state) (point : string) : aw :=
+  let a := aw_aof w in
+  let g' := aw_gen w + 1 in
+  let pre' := PreFull (snapshot_of s) in
+  let genb := gen_marker g' in
+  let at_log log := w <| aw_pre := pre' |> <| aw_gen := g' |> <| aw_aof := Aof (f_of_bytes log) (a_cur a) |> in
+  if String.eqb point "pre.create.after_rename" || String.eqb point "rewrite.after_preamble" || String.eqb point "log.trunc.begin"
+  then at_log (f_all (a_log a))
+  else if String.eqb point "log.trunc.after_truncate" then at_log []
+  else if String.eqb point "log.trunc.after_generation" then at_log genb
+  else if String.eqb point "log.trunc.after_header" || String.eqb point "log.trunc.after_sync" || String.eqb point "rewrite.after_truncate"
+  then at_log (genb ++ trunc_header (a_cur a))
+  else w.
 
 Definition down (w : aw) : aw :=
   w <| aw_live := None |> <| aw_aof := Aof (f_of_bytes (log_bytes w)) (a_cur (aw_aof w)) |>.
@@ -129,9 +156,9 @@ Definition astep (w : aw) (line : string) : aw * list string :=
   match split_words line with
   | ["O"] =>
       let log := log_bytes w in
-      let s := restore (aw_now w) (aw_pre w) log in
+      let s := restore_pg (aw_now w) (aw_pre w) (aw_gen w) log in
       (w <| aw_live := Some s |> <| aw_conns := ∅ |>
-         <| aw_aof := Aof (f_of_bytes (recovered (aw_pre w) log)) (-1) |>, ["O ok"])
+         <| aw_aof := Aof (recovered_pg (aw_pre w) (aw_gen w) log) (-1) |>, ["O ok"])
   | ["D"; c; d] =>
       match parse_int c, parse_int d with
       | Some c', Some d' => (w <| aw_conns := <[c' := d']> (aw_conns w) |>, [])
@@ -146,11 +173,16 @@ Definition astep (w : aw) (line : string) : aw * list string :=
       let all := log_bytes w in
       let n := (length all - aw_before w)%nat in
       (w, map (fun off => "T " +:+ show_Z (Z.of_nat off) +:+ " " +:+
-                          show_state (restore (aw_now w) (aw_pre w) (firstn (aw_before w + off) all)))
+                          show_state (restore_pg (aw_now w) (aw_pre w) (aw_gen w) (firstn (aw_before w + off) all)))
               (seq 1 (n - 1)))
   | ["RW"; _] =>
       match aw_live w with
       | Some s => rewrite_lines w s
+      | None => (w, ["BAD " +:+ line])
+      end
+  | ["RWK"; _; point] =>
+      match aw_live w with
+      | Some s => (rewrite_cut w s point, ["R !"])
       | None => (w, ["BAD " +:+ line])
       end
   | ["G"] => (w, ["G " +:+ match aw_live w with Some s => show_state s | None => "down" end])
